@@ -457,6 +457,20 @@ class Facts(dict):
         return dict.__contains__(self, _fold(cs, True)[0])
 
 
+def path_events(p, env):
+    """Ordered events of one path (sa/paths.Path): ('s', first line of the unparsed statement) for statements,
+    ('c', CP(condition, truth)) for branch outcomes (polarity folded), and a final ('end', kind)."""
+    from .canon import U
+    out = []
+    for ev in p.events:
+        if ev[0] == 'stmt':
+            out.append(('s', U(ev[1]).split('\n')[0]))
+        elif ev[0] == 'cond':
+            out.append(('c', CP(cond_str(ev[1], env), ev[2])))
+    out.append(('end', p.end[0]))
+    return out
+
+
 def neg(cp):
     """the opposite outcome of a (condition, polarity) pair"""
     return CP(cp[0], not cp[1])
